@@ -154,6 +154,7 @@ class AFunc(AbsVal):
         self.self_val = self_val
         self.closure = closure
         self.cls = cls   # class context for super()
+        self.defaults = None   # closures: defaults evaluated at definition time (positional list, keyword-only dict)
 
     def __repr__(self):
         return f"<func {getattr(self.node, 'name', 'lambda')}>"
@@ -168,6 +169,110 @@ class ExcVal(AbsVal):
 
     def __repr__(self):
         return f"{self.name}({', '.join(map(repr, self.args))})"
+
+    def get_attr(self, it, name):
+        if name == "args":
+            return tuple(self.args)
+        return NotImplemented
+
+
+class EnumMember(AbsVal):
+    """A member of an enum.Enum class of the package.  With an int / str mixin (IntEnum, StrEnum, `class X(str, Enum)`) it behaves
+    as its value in comparisons, hashing, arithmetic and string methods; identity is per (class, name)."""
+
+    def __init__(self, cls: ClassInfo, name: str, value, mixin):
+        self.cls, self.name, self.value, self.mixin = cls, name, value, mixin
+
+    def __repr__(self):
+        return f"<{self.cls.name}.{self.name}: {self.value!r}>"
+
+    def __hash__(self):
+        return hash(self.value) if self.mixin else hash((self.cls.qualname, self.name))
+
+    def __eq__(self, other):
+        if isinstance(other, EnumMember):
+            return self is other or (self.mixin and other.mixin and self.value == other.value)
+        return bool(self.mixin) and not isinstance(other, AbsVal) and self.value == other
+
+    def get_attr(self, it, name):
+        if name == "value":
+            return self.value
+        if name == "name":
+            return self.name
+        m = self.cls.find_method(name)
+        if m is not None:
+            if m.is_property:
+                return it.call_function(AFunc(m, m.node, m.module, self_val=self, cls=m.cls), [], {})
+            return AFunc(m, m.node, m.module, self_val=self, cls=m.cls)
+        return NotImplemented
+
+    def call_method(self, it, name, args, kwargs):
+        if name == "__type__":
+            return AClass(self.cls)
+        if name in ("__deepcopy__", "__copy__"):
+            return self
+        if name == "__isinstance__":
+            t = args[0]
+            return isinstance(t, AClass) and t.cls in self.cls.mro
+        if self.mixin == "str" and name in STR_METHODS:
+            return call_builtin_method(it, self.value, name, args, kwargs)
+        return NotImplemented
+
+    def compare(self, it, op, other, reflected):
+        if isinstance(op, (ast.Eq, ast.NotEq)):
+            if isinstance(other, Unknown):
+                return NotImplemented
+            res = self.__eq__(other)
+            return res if isinstance(op, ast.Eq) else not res
+        if self.mixin and not isinstance(other, Unknown):
+            o = other.value if isinstance(other, EnumMember) else other
+            a, b = (o, self.value) if reflected else (self.value, o)
+            return it.compare(op, a, b)
+        return NotImplemented
+
+    def binop(self, it, op, other, reflected):
+        if self.mixin:
+            o = other.value if isinstance(other, EnumMember) else other
+            return it.binop(op, o, self.value) if reflected else it.binop(op, self.value, o)
+        return NotImplemented
+
+    def truth(self, it):
+        return bool(self.value) if self.mixin else True
+
+    def subscript(self, it, idx):
+        if self.mixin == "str":
+            return it.do_index(self.value, idx) if not isinstance(idx, slice) else self.value[idx]
+        return NotImplemented
+
+
+_ENUM_MEMBERS: Dict[str, list] = {}
+
+
+def enum_mixin(cls: ClassInfo):
+    """None if `cls` is not an Enum; else '' (plain), 'int' or 'str'."""
+    ext = [x.split(".")[-1] for x in cls.all_ext_bases()]
+    if not any(x in ("Enum", "IntEnum", "StrEnum", "Flag", "IntFlag") for x in ext):
+        return None
+    if any(x in ("IntEnum", "IntFlag", "int") for x in ext):
+        return "int"
+    if any(x in ("StrEnum", "str") for x in ext):
+        return "str"
+    return ""
+
+
+def enum_members(it, cls: ClassInfo) -> list:
+    if cls.qualname not in _ENUM_MEMBERS:
+        mixin = enum_mixin(cls)
+        out = []
+        for st in cls.node.body:
+            tgt = st.targets[0] if isinstance(st, ast.Assign) and len(st.targets) == 1 else st.target if isinstance(st, ast.AnnAssign) and st.value is not None else None
+            if isinstance(tgt, ast.Name) and not tgt.id.startswith("_"):
+                val = it.ev_in_module(cls.module, st.value)
+                if isinstance(val, Unknown):
+                    raise Unsupported(f"enum member {cls.name}.{tgt.id} has a value the model cannot compute (auto() ...)")
+                out.append(EnumMember(cls, tgt.id, val, mixin))
+        _ENUM_MEMBERS[cls.qualname] = out
+    return _ENUM_MEMBERS[cls.qualname]
 
 
 class Sentinel(AbsVal):
@@ -185,6 +290,11 @@ class Sentinel(AbsVal):
         return NotImplemented
 
 
+def _stdlib():
+    from . import stdlib_model
+    return stdlib_model
+
+
 class ExtModule(AbsVal):
     """A standard-library module the interpreter models a few functions of."""
 
@@ -196,7 +306,7 @@ class ExtModule(AbsVal):
 
     def get_attr(self, it, name):
         full = f"{self.name}.{name}"
-        if full in STDLIB_FUNCS:
+        if full in STDLIB_FUNCS or full in _stdlib().FUNCS:
             return BuiltinFn(full)
         return Unknown(f"{self.name}.{name}")
 
@@ -238,6 +348,24 @@ class LazyEnum(AbsVal):
 
 STDLIB_FUNCS = {"itertools.chain", "itertools.chain.from_iterable", "operator.attrgetter", "operator.itemgetter", "functools.reduce",
                 "itertools.islice"}
+
+
+_GEN_CACHE: Dict[int, bool] = {}
+
+
+def _is_generator(fnode) -> bool:
+    k = id(fnode)
+    if k not in _GEN_CACHE:
+        found = False
+        stack = list(fnode.body)
+        while stack and not found:
+            n = stack.pop()
+            if isinstance(n, (ast.Yield, ast.YieldFrom)):
+                found = True
+            elif not isinstance(n, (ast.FunctionDef, ast.AsyncFunctionDef, ast.Lambda, ast.ClassDef)):
+                stack.extend(ast.iter_child_nodes(n))
+        _GEN_CACHE[k] = found
+    return _GEN_CACHE[k]
 
 
 class AIter(AbsVal):
@@ -346,6 +474,64 @@ def explore(run: Callable[[Ctx], Any], max_paths: int = 200000, fifo: bool = Fal
 
 
 # ----------------------------------------------------------------------------- frames
+_IMPORT_EFFECTS: Dict[str, bool] = {}
+_BOUND_NAMES: Dict[str, set] = {}
+
+
+def _module_bound_names(mi) -> set:
+    """Every name the module's top level may bind (assignment targets, loop / with / except variables, defs, imports),
+    functions' and classes' bodies excluded."""
+    if mi.name not in _BOUND_NAMES:
+        out = set()
+        stack = list(mi.tree.body)
+        while stack:
+            n = stack.pop()
+            if isinstance(n, (ast.FunctionDef, ast.AsyncFunctionDef, ast.ClassDef)):
+                out.add(n.name)
+                continue
+            if isinstance(n, ast.Name) and isinstance(n.ctx, ast.Store):
+                out.add(n.id)
+            elif isinstance(n, ast.alias):
+                out.add((n.asname or n.name).split(".")[0])
+            elif isinstance(n, ast.ExceptHandler) and n.name:
+                out.add(n.name)
+            stack.extend(ast.iter_child_nodes(n))
+        _BOUND_NAMES[mi.name] = out
+    return _BOUND_NAMES[mi.name]
+
+
+def _has_import_effects(P, mi) -> bool:
+    """Does the module's top level run code that changes what its globals hold (beyond binding names once)?"""
+    if mi.name in _IMPORT_EFFECTS:
+        return _IMPORT_EFFECTS[mi.name]
+    found = False
+    for st in mi.tree.body:
+        if isinstance(st, ast.Expr) and isinstance(st.value, ast.Call):
+            fn = ast.unparse(st.value.func)
+            if not fn.split(".")[0] in ("warnings", "logging", "logger", "sys", "os"):
+                found = True
+        elif isinstance(st, (ast.For, ast.While, ast.AugAssign, ast.With)):
+            found = True
+        elif isinstance(st, ast.Assign) and any(not isinstance(t, (ast.Name, ast.Tuple)) for t in st.targets):
+            found = True
+        elif isinstance(st, (ast.FunctionDef, ast.ClassDef)):
+            for d in st.decorator_list:
+                root = d.func if isinstance(d, ast.Call) else d
+                while isinstance(root, ast.Attribute):
+                    root = root.value
+                if isinstance(root, ast.Name):
+                    try:
+                        r = P.resolve_name(mi, root.id)
+                    except AnalysisError:
+                        r = None
+                    if r is not None and not (isinstance(r, tuple) and r[0] == "module") and type(r).__name__ in ("FuncInfo", "ClassInfo"):
+                        found = True
+        if found:
+            break
+    _IMPORT_EFFECTS[mi.name] = found
+    return found
+
+
 class Frame:
     def __init__(self, module: ModuleInfo, cls: Optional[ClassInfo], env: dict, parent: Optional["Frame"] = None, fname=""):
         self.module = module
@@ -421,6 +607,8 @@ class Interp:
             r = v.truth(self)
             if r is not NotImplemented:
                 return r
+            if isinstance(v, Unknown) and getattr(v, "nonempty", False):
+                return True
             return self.fork_bool(("truth", id(v)), f"bool({label or v!r})")
         return bool(v)
 
@@ -440,6 +628,69 @@ class Interp:
             return v
         return self.global_name(self.frame.module, e.id)
 
+    _modenv: Dict[str, Any] = {}
+
+    def module_env(self, mi: ModuleInfo):
+        """Module globals as left by the module's import-time statements - only for modules whose top level does more than define
+        names (registries filled by decorators, tables filled by loops / calls); None otherwise."""
+        if mi.name in self._modenv:
+            return self._modenv[mi.name]
+        if not _has_import_effects(self.P, mi):
+            self._modenv[mi.name] = None
+            return None
+        env: Dict[str, Any] = {}
+        self._modenv[mi.name] = env
+        self.frames.append(Frame(mi, None, env, None, "<module-init>"))
+        try:
+            for st in mi.tree.body:
+                try:
+                    self._exec_toplevel(mi, st, env)
+                except (Unsupported, LoopBound) as u:
+                    env["__incomplete__"] = f"import-time statement at {mi.relpath}:{st.lineno} not modelled: {u}"
+                except Raised as r:
+                    env["__incomplete__"] = f"import-time statement at {mi.relpath}:{st.lineno} raises {r.cls_name()}"
+        finally:
+            self.frames.pop()
+        return env
+
+    def _exec_toplevel(self, mi, st, env):
+        if isinstance(st, (ast.Import, ast.ImportFrom, ast.Pass)):
+            return
+        if isinstance(st, ast.Expr) and isinstance(st.value, ast.Constant):
+            return
+        if isinstance(st, (ast.FunctionDef, ast.ClassDef)):
+            if not st.decorator_list:
+                return
+            if isinstance(st, ast.FunctionDef):
+                fi = mi.functions.get(st.name)
+                val = AFunc(fi, st, mi) if fi is not None and fi.node is st else None
+            else:
+                ci = mi.classes.get(st.name)
+                val = AClass(ci) if ci is not None and ci.node is st else None
+            if val is None:
+                return
+            orig = val
+            for d in reversed(st.decorator_list):
+                dv = self.ev(d)
+                if isinstance(dv, (Unknown, BuiltinFn, BuiltinType, BoundBuiltin)) or dv is None:
+                    continue            # decorators from outside the package (functools, abc, dataclasses ...): handled by the program model
+                res = self.call_value(dv, [val], {})
+                if isinstance(res, (AFunc, AClass)):
+                    val = res
+            if val is not orig and not (isinstance(val, AFunc) and val.node is st):
+                env[st.name] = val
+            return
+        if isinstance(st, (ast.Assign, ast.AnnAssign)):
+            tg = st.targets if isinstance(st, ast.Assign) else [st.target]
+            if all(isinstance(t, ast.Name) for t in tg):
+                # plain constants stay with the (folding) global lookup unless something at import time may change them
+                v = st.value
+                if v is None or not isinstance(v, (ast.List, ast.Dict, ast.Set, ast.ListComp, ast.DictComp, ast.SetComp, ast.Call)):
+                    return
+                if isinstance(v, ast.Call) and _src(v.func).split(".")[-1] not in ("list", "dict", "set", "defaultdict", "OrderedDict", "deque", "Counter"):
+                    return
+        self.st(st)
+
     def global_name(self, mi: ModuleInfo, name: str):
         key = f"{mi.name}:{name}"
         if key in self.intr:
@@ -447,6 +698,11 @@ class Interp:
             return v
         if name in self.intr:
             return self.intr[name]
+        menv = self.module_env(mi)
+        if menv is not None and name in menv:
+            if "__incomplete__" in menv:
+                raise Unsupported(menv["__incomplete__"])
+            return menv[name]
         r = self.P.resolve_name(mi, name)
         if isinstance(r, FuncInfo):
             return AFunc(r, r.node, r.module)
@@ -480,9 +736,9 @@ class Interp:
             return Unknown(f"module:{r[1].name}")
         if name in mi.imports:
             mod, attr = mi.imports[name]
-            if attr is None and mod in ("itertools", "operator", "functools"):
+            if attr is None and mod in _stdlib().MODULES:
                 return ExtModule(mod)
-            if attr is not None and f"{mod}.{attr}" in STDLIB_FUNCS:
+            if attr is not None and (f"{mod}.{attr}" in STDLIB_FUNCS or f"{mod}.{attr}" in _stdlib().FUNCS):
                 return BuiltinFn(f"{mod}.{attr}")
         if name in ("str", "int", "bool", "list", "dict", "set", "tuple", "float", "type", "object", "frozenset"):
             return BuiltinType(name)
@@ -494,9 +750,14 @@ class Interp:
             return BuiltinFn(name)
         if name in ("True", "False", "None"):
             return {"True": True, "False": False, "None": None}[name]
-        return Unknown(f"name:{name}")
+        import builtins as _b
+        if name in mi.imports or hasattr(_b, name) or (name.startswith("__") and name.endswith("__")) or name in _module_bound_names(mi):
+            return Unknown(f"name:{name}")
+        # neither a local, a closure variable, a module-level binding, an import nor a builtin: Python raises NameError here
+        self.raise_builtin("NameError", f"name '{name}' is not defined")
 
     _globals: Dict[Any, Any] = {}
+    _clsattrs: Dict[Any, Any] = {}
 
     def lift(self, v):
         """Python constant -> abstract value (containers become abstract containers)."""
@@ -558,10 +819,25 @@ class Interp:
                 parts.append(v.value)
             else:
                 val = self.ev(v.value)
-                if isinstance(val, (str, int)) and not isinstance(val, bool) and v.format_spec is None and v.conversion == -1:
-                    parts.append(str(val))
+                spec = self.ev(v.format_spec) if v.format_spec is not None else ""
+                if isinstance(val, AObj) and spec == "" and v.conversion in (-1, 115) and val.cls.find_method("__format__") is None \
+                        and (val.cls.find_method("__str__") or val.cls.find_method("__repr__")) is not None:
+                    val = call_builtin_type(self, "str", [val], {}, e)
+                if isinstance(val, (str, int, float, bool, type(None))) and isinstance(spec, str):
+                    if v.conversion == 114:
+                        val = repr(val)
+                    elif v.conversion == 115:
+                        val = str(val)
+                    elif v.conversion == 97:
+                        val = ascii(val)
+                    try:
+                        parts.append(format(val, spec))
+                    except (ValueError, TypeError) as exc:
+                        self.raise_builtin(type(exc).__name__, str(exc), node=e)
+                elif (spec == "" and v.conversion in (-1, 115)) or isinstance(val, AbsVal) and not isinstance(val, (Unknown, AList, ADict, ASet, AObj)):
+                    parts.append(val)       # plain interpolation (domain values decide how a spec applies to them)
                 else:
-                    parts.append(val)
+                    parts.append(Unknown("formatted", "str"))   # a conversion / format spec on a value the model cannot format
         if all(isinstance(p, str) for p in parts):
             return "".join(parts)
         return self.make_fstring(parts)
@@ -626,6 +902,22 @@ class Interp:
             return AList(a.items * b)
         if isinstance(a, tuple) and isinstance(b, tuple) and isinstance(op, ast.Add):
             return a + b
+        if isinstance(a, tuple) and isinstance(b, int) and not isinstance(b, bool) and isinstance(op, ast.Mult):
+            return a * b
+        if isinstance(a, ASet) and isinstance(b, ASet) and isinstance(op, (ast.BitAnd, ast.BitOr, ast.Sub, ast.BitXor)):
+            ina = lambda x: any(self.equal(x, y) for y in a.items)
+            inb = lambda x: any(self.equal(x, y) for y in b.items)
+            if isinstance(op, ast.BitAnd):
+                return ASet([x for x in a.items if inb(x)])
+            if isinstance(op, ast.Sub):
+                return ASet([x for x in a.items if not inb(x)])
+            if isinstance(op, ast.BitOr):
+                return ASet(a.items + [y for y in b.items if not ina(y)])
+            return ASet([x for x in a.items if not inb(x)] + [y for y in b.items if not ina(y)])
+        if isinstance(a, ADict) and isinstance(b, ADict) and isinstance(op, ast.BitOr):
+            d = ADict(dict(a.items))
+            d.items.update(b.items)
+            return d
         if not isinstance(a, AbsVal) and not isinstance(b, AbsVal):
             try:
                 if isinstance(op, ast.Add):
@@ -638,6 +930,22 @@ class Interp:
                     return a % b
                 if isinstance(op, ast.FloorDiv):
                     return a // b
+                if isinstance(op, ast.Div):
+                    return a / b
+                if isinstance(op, ast.Pow) and not (isinstance(b, int) and abs(b) > 64):
+                    return a ** b
+                if isinstance(op, ast.BitAnd):
+                    return a & b
+                if isinstance(op, ast.BitOr):
+                    return a | b
+                if isinstance(op, ast.BitXor):
+                    return a ^ b
+                if isinstance(op, ast.LShift) and isinstance(b, int) and b < 64:
+                    return a << b
+                if isinstance(op, ast.RShift):
+                    return a >> b
+            except ZeroDivisionError:
+                self.raise_builtin("ZeroDivisionError", "division by zero", node=node)
             except TypeError:
                 self.raise_builtin("TypeError", f"unsupported operand types {type(a).__name__}, {type(b).__name__}", node=node)
         if self.hooks is not None and hasattr(self.hooks, "binop"):
@@ -646,8 +954,18 @@ class Interp:
                 return r
         return Unknown(f"binop:{_src(node)[:40] if node is not None else type(op).__name__}")
 
+    size_abstraction = False     # drivers may switch it on: a small concrete collection stands for one of any size
+
     def ev_Compare(self, e):
         left = self.ev(e.left)
+        if self.size_abstraction and len(e.ops) == 1 and isinstance(e.ops[0], (ast.Lt, ast.LtE, ast.Gt, ast.GtE)):
+            # `len(x) < THRESHOLD` with a large constant threshold: both sides of a size threshold are explored
+            right = self.ev(e.comparators[0])
+            for sz, other in ((e.left, right), (e.comparators[0], left)):
+                if isinstance(sz, ast.Call) and isinstance(sz.func, ast.Name) and sz.func.id == "len" and isinstance(other, int) \
+                        and not isinstance(other, bool) and other >= 16:
+                    return self.fork_bool(("size-threshold", _src(e)), f"{_src(e)} (collection of any size)")
+            return self.compare(e.ops[0], left, right, _src(e))
         for op, r in zip(e.ops, e.comparators):
             right = self.ev(r)
             if not self.compare(op, left, right, _src(e)):
@@ -673,6 +991,8 @@ class Interp:
         if isinstance(op, (ast.Eq, ast.NotEq)):
             res = self.equal(a, b, src)
             return res if isinstance(op, ast.Eq) else not res
+        if isinstance(a, AList) and isinstance(b, AList) and all(_is_concrete(x) and not isinstance(x, (list, dict, set)) for x in a.items + b.items):
+            a, b = list(a.items), list(b.items)
         if not isinstance(a, AbsVal) and not isinstance(b, AbsVal):
             try:
                 if isinstance(op, ast.Gt):
@@ -722,6 +1042,9 @@ class Interp:
         if isinstance(a, Unknown) or isinstance(b, Unknown):
             if a is b:
                 return True
+            for x, y in ((a, b), (b, a)):
+                if isinstance(x, Unknown) and getattr(x, "nonempty", False) and isinstance(y, str) and y == "":
+                    return False        # repr() of an object is never the empty string
             ka, kb = self.vkey(a), self.vkey(b)
             key = ("eq",) + tuple(sorted([ka, kb], key=repr))
             return self.fork_bool(key, src or f"{a!r} == {b!r}")
@@ -744,10 +1067,25 @@ class Interp:
             return a is b
         if isinstance(a, (AClass, BuiltinType)) or isinstance(b, (AClass, BuiltinType)):
             return a == b
-        if isinstance(a, AObj) and isinstance(b, AObj):
-            m = a.cls.find_method("__eq__")
-            if m is not None:
-                return self.truth(self.call_function(AFunc(m, m.node, m.module, self_val=a, cls=m.cls), [b], {}))
+        if isinstance(a, AObj) or isinstance(b, AObj):
+            for x, y in ((a, b), (b, a)):
+                if isinstance(x, AObj) and getattr(x, "tag", "") == "namedtuple":
+                    xs = [x.attrs[f] for f in self.record_fields(x.cls)]
+                    ys = [y.attrs[f] for f in self.record_fields(y.cls)] if isinstance(y, AObj) and getattr(y, "tag", "") == "namedtuple" else \
+                        list(y) if isinstance(y, tuple) else None
+                    return ys is not None and len(xs) == len(ys) and all(self.equal(p, q) for p, q in zip(xs, ys))
+            for x, y in ((a, b), (b, a)):
+                if isinstance(x, AObj):
+                    m = x.cls.find_method("__eq__")
+                    if m is not None:
+                        r = self.call_function(AFunc(m, m.node, m.module, self_val=x, cls=m.cls), [y], {})
+                        if isinstance(r, BuiltinFn) and r.name == "NotImplemented" or isinstance(r, Unknown) and r.tag == "name:NotImplemented":
+                            continue
+                        return self.truth(r)
+                    if x.cls.is_dataclass:
+                        if isinstance(y, AObj) and y.cls is x.cls:
+                            return all(self.equal(x.attrs.get(f), y.attrs.get(f)) for f in self.record_fields(x.cls))
+                        return False
             return a is b
         if isinstance(a, AbsVal) or isinstance(b, AbsVal):
             if isinstance(a, AbsVal):
@@ -825,8 +1163,8 @@ class Interp:
                     return AFunc(m, m.node, m.module, self_val=AClass(v.cls), cls=m.cls)
                 return AFunc(m, m.node, m.module, self_val=v, cls=m.cls)
             for c in v.cls.mro:
-                if name in c.class_attrs:
-                    return self.ev_in_module(c.module, c.class_attrs[name])
+                if name in c.class_attrs or (c.qualname, name) in self._clsattrs:
+                    return self.class_attr(c, name)
             ext = v.cls.all_ext_bases()
             if any(x.split(".")[-1] not in ("ABC", "object") for x in ext):
                 return BoundBuiltin(v, name)
@@ -841,12 +1179,23 @@ class Interp:
                 return AFunc(m, m.node, m.module, cls=m.cls)
             if name == "__name__":
                 return v.cls.name
+            if enum_mixin(v.cls) is not None:
+                for mem in enum_members(self, v.cls):
+                    if mem.name == name:
+                        return mem
+                if name == "__members__":
+                    return ADict({m_.name: m_ for m_ in enum_members(self, v.cls)})
             for c in v.cls.mro:
-                if name in c.class_attrs:
-                    return self.ev_in_module(c.module, c.class_attrs[name])
+                if name in c.class_attrs or (c.qualname, name) in self._clsattrs:
+                    return self.class_attr(c, name)
             return Unknown(f"{v.cls.name}.{name}")
         if isinstance(v, BuiltinType) and name == "__name__":
             return v.name
+        if isinstance(v, BuiltinType) and v.name in ("str", "list", "dict", "set", "tuple") and not name.startswith("__") \
+                and not (v.name == "dict" and name == "fromkeys"):
+            def unbound(it_, args, kwargs, node_=None, name=name):
+                return call_builtin_method(it_, args[0], name, list(args[1:]), kwargs, node_)
+            return unbound
         if isinstance(v, BuiltinFn) and f"{v.name}.{name}" in STDLIB_FUNCS:
             return BuiltinFn(f"{v.name}.{name}")
         if isinstance(v, AbsVal):
@@ -859,6 +1208,14 @@ class Interp:
         if isinstance(v, (int, float, bool)) and not hasattr(v, name):
             self.raise_builtin("AttributeError", f"'{type(v).__name__}' object has no attribute '{name}'", node=node)
         return BoundBuiltin(v, name)
+
+    def class_attr(self, c: ClassInfo, name: str):
+        """The value of a class-level attribute: evaluated once per run, so that a mutable one (a dict / list declared in the class
+        body) is one object shared by the class and all its instances, as in Python."""
+        k = (c.qualname, name)
+        if k not in self._clsattrs:
+            self._clsattrs[k] = self.ev_in_module(c.module, c.class_attrs[name])
+        return self._clsattrs[k]
 
     def ev_in_module(self, mi: ModuleInfo, e: ast.expr):
         self.frames.append(Frame(mi, None, {}, None, "<module>"))
@@ -894,6 +1251,11 @@ class Interp:
         return Unknown(f"slice:{_src(node)[:40] if node is not None else ''}")
 
     def do_index(self, v, idx, node=None):
+        if isinstance(v, AClass) and enum_mixin(v.cls) is not None and isinstance(idx, str):
+            for mem in enum_members(self, v.cls):
+                if mem.name == idx:
+                    return mem
+            self.raise_builtin("KeyError", idx, node=node)
         if isinstance(v, AbsVal) and not isinstance(v, (AList, ADict, Unknown)):
             r = v.subscript(self, idx)
             if r is not NotImplemented:
@@ -920,7 +1282,20 @@ class Interp:
                     return v.items[idx]
             except TypeError:
                 pass
+            factory = getattr(v, "default_factory", None)
+            if factory is not None:
+                val = self.call_value(factory, [], {})
+                if getattr(v, "counter", False):
+                    return val          # Counter: missing keys read as 0 and are not stored
+                v.items[self.hashable(idx)] = val
+                return val
             self.raise_builtin("KeyError", idx, node=node)
+        if isinstance(v, AObj) and getattr(v, "tag", "") == "namedtuple" and isinstance(idx, int):
+            vals = [v.attrs[f] for f in self.record_fields(v.cls)]
+            try:
+                return vals[idx]
+            except IndexError:
+                self.raise_builtin("IndexError", "tuple index out of range", node=node)
         if isinstance(v, AObj):
             m = v.cls.find_method("__getitem__")
             if m is not None:
@@ -938,8 +1313,27 @@ class Interp:
 
     _submemo: Dict[Any, Any] = {}
 
+    def ev_Yield(self, e):
+        fr = self.frame
+        if getattr(fr, "yields", None) is None:
+            raise Unsupported("yield outside a generator function")
+        fr.yields.append(self.ev(e.value) if e.value is not None else None)
+        if len(fr.yields) > self.MAX_LOOP:
+            raise LoopBound("generator yields without bound")
+        return None
+
+    def ev_YieldFrom(self, e):
+        fr = self.frame
+        if getattr(fr, "yields", None) is None:
+            raise Unsupported("yield from outside a generator function")
+        fr.yields.extend(self.iterate(self.ev(e.value)))
+        return None
+
     def ev_Lambda(self, e):
-        return AFunc(None, e, self.frame.module, closure=self.frame, cls=self.frame.cls)
+        f = AFunc(None, e, self.frame.module, closure=self.frame, cls=self.frame.cls)
+        if e.args.defaults or any(d is not None for d in e.args.kw_defaults):
+            f.defaults = ([self.ev(d) for d in e.args.defaults], {k.arg: self.ev(d) for k, d in zip(e.args.kwonlyargs, e.args.kw_defaults) if d is not None})
+        return f
 
     def ev_ListComp(self, e):
         return AList(self.comprehension(e.generators, lambda: self.ev(e.elt)))
@@ -992,6 +1386,18 @@ class Interp:
             rest = v.seq[v.pos:]
             v.pos = len(v.seq)
             return rest
+        if isinstance(v, AClass) and enum_mixin(v.cls) is not None:
+            return list(enum_members(self, v.cls))
+        if isinstance(v, EnumMember) and v.mixin == "str":
+            return list(v.value)
+        if isinstance(v, AObj):
+            if getattr(v, "tag", "") == "namedtuple":
+                return [v.attrs[f] for f in self.record_fields(v.cls)]
+            m = v.cls.find_method("__iter__")
+            if m is not None:
+                r = self.call_function(AFunc(m, m.node, m.module, self_val=v, cls=m.cls), [], {})
+                if r is not v:
+                    return self.iterate(r, label)
         if isinstance(v, AbsVal) and not isinstance(v, Unknown) and getattr(v, "lazy", False):
             return list(self.lazy_items(v, label))
         if isinstance(v, AbsVal) and not isinstance(v, Unknown):
@@ -1073,9 +1479,23 @@ class Interp:
         key = f"new:{cls.name}"
         if key in self.intr:
             return self.intr[key](self, cls, args, kwargs, node)
+        if enum_mixin(cls) is not None:
+            # Enum(value): look the member up
+            if len(args) != 1 or isinstance(args[0], Unknown):
+                raise Unsupported(f"enum lookup {cls.name}(...) with an unknown value")
+            for mem in enum_members(self, cls):
+                if mem is args[0] or (not isinstance(args[0], AbsVal) and mem.value == args[0] and type(mem.value) is type(args[0])):
+                    return mem
+            self.raise_builtin("ValueError", f"{args[0]!r} is not a valid {cls.name}", node=node)
         obj = AObj(cls)
-        if cls.is_dataclass:
+        if cls.is_dataclass or self.is_namedtuple(cls):
             self.init_dataclass(obj, args, kwargs)
+            if self.is_namedtuple(cls):
+                obj.tag = "namedtuple"
+            else:
+                post = cls.find_method("__post_init__")
+                if post is not None:
+                    self.call_function(AFunc(post, post.node, post.module, self_val=obj, cls=post.cls), [], {}, node)
             return obj
         init = cls.find_method("__init__")
         if init is not None:
@@ -1086,7 +1506,24 @@ class Interp:
                 obj.attrs["args"] = tuple(args)
         return obj
 
+    @staticmethod
+    def is_namedtuple(cls: ClassInfo) -> bool:
+        return any(x.split(".")[-1] == "NamedTuple" for c in cls.mro for x in getattr(c, "ext_bases", []) or []) or \
+            any(x.split(".")[-1] == "NamedTuple" for x in cls.all_ext_bases())
+
+    @staticmethod
+    def record_fields(cls: ClassInfo):
+        out = []
+        for c in reversed(cls.mro):
+            for st in c.node.body:
+                if isinstance(st, ast.AnnAssign) and isinstance(st.target, ast.Name) and st.target.id not in out \
+                        and "ClassVar" not in ast.unparse(st.annotation):
+                    out.append(st.target.id)
+        return out
+
     def init_dataclass(self, obj: AObj, args, kwargs):
+        if len(args) + len(kwargs) > len(self.record_fields(obj.cls)) or any(k not in self.record_fields(obj.cls) for k in kwargs):
+            self.raise_builtin("TypeError", f"{obj.cls.name}() got unexpected arguments")
         fields = []
         for c in reversed(obj.cls.mro):
             for st in c.node.body:
@@ -1113,7 +1550,7 @@ class Interp:
             else:
                 self.raise_builtin("TypeError", f"missing argument {name}")
 
-    def bind(self, fnode, args, kwargs, self_val, defaults_frame_module, fname):
+    def bind(self, fnode, args, kwargs, self_val, defaults_frame_module, fname, predefaults=None):
         a = fnode.args
         params = [p.arg for p in a.posonlyargs + a.args]
         env = {}
@@ -1146,14 +1583,14 @@ class Interp:
             if p not in env:
                 di = i - (len(params) - ndef)
                 if di >= 0:
-                    env[p] = self.ev_in_module(defaults_frame_module, a.defaults[di])
+                    env[p] = predefaults[0][di] if predefaults is not None else self.ev_in_module(defaults_frame_module, a.defaults[di])
                 else:
                     self.raise_builtin("TypeError", f"{fname}() missing required positional argument '{p}'")
         for k, d in zip(a.kwonlyargs, a.kw_defaults):
             if k.arg not in env:
                 if d is None:
                     self.raise_builtin("TypeError", f"{fname}() missing keyword argument '{k.arg}'")
-                env[k.arg] = self.ev_in_module(defaults_frame_module, d)
+                env[k.arg] = predefaults[1][k.arg] if predefaults is not None else self.ev_in_module(defaults_frame_module, d)
         return env
 
     def call_function(self, fn: AFunc, args, kwargs, node=None):
@@ -1164,13 +1601,21 @@ class Interp:
                 return self.intr[key](self, fn, args, kwargs, node)
         if self.depth >= self.MAX_DEPTH:
             raise Unsupported(f"call depth exceeded at {qual}")
-        env = self.bind(fn.node, args, kwargs, fn.self_val, fn.module, name)
+        env = self.bind(fn.node, args, kwargs, fn.self_val, fn.module, name, getattr(fn, "defaults", None))
         fr = Frame(fn.module, fn.cls, env, fn.closure, qual)
         self.frames.append(fr)
         self.depth += 1
         try:
             if isinstance(fn.node, ast.Lambda):
                 return self.ev(fn.node.body)
+            if _is_generator(fn.node):
+                # generator function: run eagerly, collect what it yields, hand out a one-shot iterator
+                fr.yields = []
+                try:
+                    self.run(fn.node.body)
+                except Ret:
+                    pass
+                return AIter(fr.yields)
             try:
                 self.run(fn.node.body)
             except Ret as r:
@@ -1195,11 +1640,34 @@ class Interp:
 
     def assign(self, t, v, node=None):
         if isinstance(t, ast.Name):
-            self.frame.env[t.id] = v
+            fr = self.frame
+            if t.id in getattr(fr, "nonlocals", ()):
+                f = fr.parent
+                while f is not None and t.id not in f.env:
+                    f = f.parent
+                if f is None:
+                    raise Unsupported(f"nonlocal {t.id} not found")
+                f.env[t.id] = v
+                return
+            fr.env[t.id] = v
         elif isinstance(t, ast.Attribute):
             base = self.ev(t.value)
             self.set_attr(base, t.attr, v, t)
         elif isinstance(t, (ast.Tuple, ast.List)):
+            star = next((i for i, x in enumerate(t.elts) if isinstance(x, ast.Starred)), None)
+            if star is not None:
+                if isinstance(v, Unknown):
+                    raise Unsupported("starred unpacking of an unknown value")
+                vals = self.iterate(v)
+                n_after = len(t.elts) - star - 1
+                if len(vals) < star + n_after:
+                    self.raise_builtin("ValueError", "not enough values to unpack", node=t)
+                for tt, vv in zip(t.elts[:star], vals[:star]):
+                    self.assign(tt, vv)
+                self.assign(t.elts[star].value, AList(vals[star:len(vals) - n_after]))
+                for tt, vv in zip(t.elts[star + 1:], vals[len(vals) - n_after:]):
+                    self.assign(tt, vv)
+                return
             vals = self.unpack(v, len(t.elts), t)
             for tt, vv in zip(t.elts, vals):
                 self.assign(tt, vv)
@@ -1246,6 +1714,10 @@ class Interp:
         if isinstance(base, Unknown):
             base._attrs[name] = v
             self.effect("store-attr", base, name, v)
+            return
+        if isinstance(base, AClass):
+            self._clsattrs[(base.cls.qualname, name)] = v
+            self.effect("store-class-attr", base, name, v)
             return
         raise Unsupported(f"attribute store on {base!r}")
 
@@ -1324,7 +1796,10 @@ class Interp:
         raise Unsupported("global statement")
 
     def st_Nonlocal(self, s):
-        raise Unsupported("nonlocal statement")
+        fr = self.frame
+        if not hasattr(fr, "nonlocals"):
+            fr.nonlocals = set()
+        fr.nonlocals.update(s.names)
 
     def st_Delete(self, s):
         for t in s.targets:
@@ -1369,7 +1844,9 @@ class Interp:
             if x.node is s:
                 fi = x
                 break
-        self.frame.env[s.name] = AFunc(fi, s, self.frame.module, closure=self.frame, cls=self.frame.cls)
+        f = AFunc(fi, s, self.frame.module, closure=self.frame, cls=self.frame.cls)
+        f.defaults = ([self.ev(d) for d in s.args.defaults], {k.arg: self.ev(d) for k, d in zip(s.args.kwonlyargs, s.args.kw_defaults) if d is not None})
+        self.frame.env[s.name] = f
 
     def st_Raise(self, s):
         if s.exc is None:
@@ -1434,12 +1911,45 @@ class Interp:
             if s.finalbody:
                 self.run(s.finalbody)
 
-    def st_With(self, s):
-        for item in s.items:
-            v = self.ev(item.context_expr)
+    def st_With(self, s, _i=0):
+        if _i >= len(s.items):
+            self.run(s.body)
+            return
+        item = s.items[_i]
+        v = self.ev(item.context_expr)
+        managed = isinstance(v, AObj) and v.cls.find_method("__enter__") is not None and v.cls.find_method("__exit__") is not None
+        if not managed:
+            entered = v
+            absmgr = isinstance(v, AbsVal) and not isinstance(v, (Unknown, AObj, AList, ADict, ASet))
+            if absmgr:
+                r = v.call_method(self, "__enter__", [], {})
+                if r is not NotImplemented:
+                    entered = r
+                else:
+                    absmgr = False
             if item.optional_vars is not None:
-                self.assign(item.optional_vars, Unknown(f"with:{_src(item.context_expr)[:30]}") if isinstance(v, Unknown) else v)
-        self.run(s.body)
+                self.assign(item.optional_vars, Unknown(f"with:{_src(item.context_expr)[:30]}") if isinstance(v, Unknown) else entered)
+            try:
+                self.st_With(s, _i + 1)
+            finally:
+                if absmgr:
+                    v.call_method(self, "__exit__", [None, None, None], {})
+            return
+        entered = self.call_value(self.get_attr(v, "__enter__"), [], {})
+        if item.optional_vars is not None:
+            self.assign(item.optional_vars, entered)
+        try:
+            self.st_With(s, _i + 1)
+        except Raised as r:
+            exc = r.exc
+            et = AClass(exc.cls) if isinstance(exc, AObj) else BuiltinType(exc.name)
+            if self.truth(self.call_value(self.get_attr(v, "__exit__"), [et, exc, None], {})):
+                return
+            raise
+        except (Ret, Brk, Cont):
+            self.call_value(self.get_attr(v, "__exit__"), [None, None, None], {})
+            raise
+        self.call_value(self.get_attr(v, "__exit__"), [None, None, None], {})
 
     def lazy_items(self, v, label):
         """Items of an iterable; AbsVals implementing ``__next__`` are consumed lazily (one per iteration)."""
@@ -1477,6 +1987,98 @@ class Interp:
                 break
         if not broke:
             self.run(s.orelse)
+
+    def st_Match(self, s):
+        subj = self.ev(s.subject)
+        for case in s.cases:
+            binds: Dict[str, Any] = {}
+            if not self.match_pattern(case.pattern, subj, binds):
+                continue
+            self.frame.env.update(binds)
+            if case.guard is not None and not self.truth(self.ev(case.guard), _src(case.guard)):
+                continue
+            self.run(case.body)
+            return
+
+    def match_pattern(self, p, v, binds) -> bool:
+        if isinstance(p, ast.MatchValue):
+            return self.compare(ast.Eq(), v, self.ev(p.value), _src(p))
+        if isinstance(p, ast.MatchSingleton):
+            return self.identical(v, p.value, _src(p))
+        if isinstance(p, ast.MatchAs):
+            if p.pattern is not None and not self.match_pattern(p.pattern, v, binds):
+                return False
+            if p.name is not None:
+                binds[p.name] = v
+            return True
+        if isinstance(p, ast.MatchOr):
+            for alt in p.patterns:
+                b2: Dict[str, Any] = {}
+                if self.match_pattern(alt, v, b2):
+                    binds.update(b2)
+                    return True
+            return False
+        if isinstance(p, ast.MatchClass):
+            cls = self.ev(p.cls)
+            if not isinstance_abs(self, v, cls):
+                return False
+            if p.patterns:
+                if len(p.patterns) == 1 and isinstance(cls, BuiltinType):
+                    if not self.match_pattern(p.patterns[0], v, binds):     # str(x) / int(x): the subject itself
+                        return False
+                else:
+                    names = self.get_attr(cls, "__match_args__") if isinstance(cls, AClass) else ()
+                    names = self.iterate(names)
+                    if len(p.patterns) > len(names):
+                        self.raise_builtin("TypeError", "too many positional sub-patterns")
+                    for n_, sp in zip(names, p.patterns):
+                        if not self.match_pattern(sp, self.get_attr(v, n_), binds):
+                            return False
+            for n_, sp in zip(p.kwd_attrs, p.kwd_patterns):
+                try:
+                    av = self.get_attr(v, n_)
+                except Raised:
+                    return False
+                if not self.match_pattern(sp, av, binds):
+                    return False
+            return True
+        if isinstance(p, ast.MatchSequence):
+            if isinstance(v, (str, bytes)) or isinstance(v, (ADict, ASet)) or not isinstance(v, (tuple, list, AList)):
+                if isinstance(v, Unknown):
+                    raise Unsupported("sequence pattern on an unknown value")
+                return False
+            items = self.iterate(v)
+            star = next((i for i, sp in enumerate(p.patterns) if isinstance(sp, ast.MatchStar)), None)
+            if star is None:
+                if len(items) != len(p.patterns):
+                    return False
+                return all(self.match_pattern(sp, x, binds) for sp, x in zip(p.patterns, items))
+            n_after = len(p.patterns) - star - 1
+            if len(items) < star + n_after:
+                return False
+            for sp, x in zip(p.patterns[:star], items[:star]):
+                if not self.match_pattern(sp, x, binds):
+                    return False
+            if p.patterns[star].name is not None:
+                binds[p.patterns[star].name] = AList(items[star:len(items) - n_after])
+            for sp, x in zip(p.patterns[star + 1:], items[len(items) - n_after:]):
+                if not self.match_pattern(sp, x, binds):
+                    return False
+            return True
+        if isinstance(p, ast.MatchMapping):
+            if not isinstance(v, ADict):
+                if isinstance(v, Unknown):
+                    raise Unsupported("mapping pattern on an unknown value")
+                return False
+            for k_, sp in zip(p.keys, p.patterns):
+                hk = self.hashable(self.ev(k_))
+                if hk not in v.items or not self.match_pattern(sp, v.items[hk], binds):
+                    return False
+            if p.rest is not None:
+                used = {self.hashable(self.ev(k_)) for k_ in p.keys}
+                binds[p.rest] = ADict({k_: x for k_, x in v.items.items() if k_ not in used})
+            return True
+        raise Unsupported(f"pattern {type(p).__name__}")
 
     def st_While(self, s):
         n = 0
@@ -1543,14 +2145,11 @@ class SuperProxy(AbsVal):
         return BoundBuiltin(self, name)
 
 
-BUILTIN_FUNCS = {"len", "isinstance", "issubclass", "sorted", "enumerate", "zip", "range", "max", "min", "any", "all",
+BUILTIN_FUNCS = {"divmod", "pow", "round", "bin", "hex", "oct", "format", "ascii", "len", "isinstance", "issubclass", "sorted", "enumerate", "zip", "range", "max", "min", "any", "all",
                  "getattr", "hasattr", "setattr", "next", "iter", "deepcopy", "copy", "print", "repr", "id", "open", "abs",
                  "reversed", "sum", "callable", "map", "filter", "super", "vars", "hash", "ord", "chr"}
 
-STR_METHODS = {"startswith", "endswith", "lower", "upper", "strip", "lstrip", "rstrip", "isalpha", "isupper", "islower",
-               "isspace", "isdigit", "isdecimal", "isnumeric", "split", "join", "format", "replace", "splitlines", "count",
-               "find", "index", "capitalize", "title", "rsplit", "partition", "rpartition", "isalnum", "encode", "casefold",
-               "removeprefix", "removesuffix", "zfill", "center", "ljust", "rjust", "isidentifier"}
+STR_METHODS = {n for n in dir(str) if not n.startswith("_")}
 
 
 def _is_concrete(v):
@@ -1626,6 +2225,18 @@ def isinstance_abs(it: Interp, v, t, label="") -> bool:
                         return True
                     continue
             continue
+        if isinstance(t, BuiltinType) and t.name == "tuple" and isinstance(v, AObj) and getattr(v, "tag", "") == "namedtuple":
+            return True
+        if isinstance(v, EnumMember):
+            if isinstance(t, BuiltinType) and v.mixin and t.name == v.mixin:
+                return True
+            if isinstance(t, AClass) and t.cls in v.cls.mro:
+                return True
+            continue
+        if isinstance(t, BuiltinType) and isinstance(v, (BuiltinType, AClass, AFunc, BuiltinFn)):
+            if t.name == "type" and isinstance(v, (BuiltinType, AClass)):
+                return True
+            continue            # classes and functions are no str / int / list ...
         if isinstance(t, BuiltinType):
             tv = type_of(it, v)
             if isinstance(tv, BuiltinType):
@@ -1660,14 +2271,22 @@ def call_builtin(it: Interp, name, args, kwargs, node=None):
         r = it.hooks.builtin(it, name, args, kwargs, node)
         if r is not NotImplemented:
             return r
+    if name in _stdlib().FUNCS:
+        return _stdlib().FUNCS[name](it, args, kwargs, node)
     if name == "len":
         v = args[0]
+        if isinstance(v, AClass) and enum_mixin(v.cls) is not None:
+            return len(enum_members(it, v.cls))
+        if isinstance(v, EnumMember) and v.mixin == "str":
+            return len(v.value)
         if isinstance(v, (AList, ASet)):
             return len(v.items)
         if isinstance(v, ADict):
             return len(v.items)
         if isinstance(v, (str, tuple)):
             return len(v)
+        if isinstance(v, AObj) and getattr(v, "tag", "") == "namedtuple":
+            return len(it.record_fields(v.cls))
         if isinstance(v, AObj):
             m = v.cls.find_method("__len__")
             if m is not None:
@@ -1825,6 +2444,15 @@ def call_builtin(it: Interp, name, args, kwargs, node=None):
             if len(args) > 1:
                 return args[1]
             it.raise_builtin("StopIteration", node=node)
+        if isinstance(v, AList) and v.tag == "genexp":
+            # a generator expression / map / filter object (materialised eagerly): consume its first item
+            if v.items:
+                return v.items.pop(0)
+            if len(args) > 1:
+                return args[1]
+            it.raise_builtin("StopIteration", node=node)
+        if isinstance(v, (AList, ADict, ASet, str, tuple)):
+            it.raise_builtin("TypeError", f"'{type_of(it, v)!r}' object is not an iterator", node=node)
         if isinstance(v, AbsVal) and not isinstance(v, Unknown):
             r = v.call_method(it, "__next__", args[1:], {})
             if r is not NotImplemented:
@@ -1845,11 +2473,26 @@ def call_builtin(it: Interp, name, args, kwargs, node=None):
     if name in ("print",):
         return None
     if name == "repr":
-        return Unknown("repr", "str")
-    if name == "abs" and isinstance(args[0], int):
+        if isinstance(args[0], (str, int, float, bool, type(None))):
+            return repr(args[0])
+        if isinstance(args[0], ExcVal) and all(isinstance(a, (str, int, float, bool, type(None))) for a in args[0].args):
+            return f"{args[0].name}({', '.join(map(repr, args[0].args))})"
+        u = Unknown("repr", "str")
+        u.nonempty = True
+        return u
+    if name == "abs" and isinstance(args[0], (int, float)):
         return abs(args[0])
     if name == "callable":
-        return isinstance(args[0], (AFunc, AClass, BuiltinFn, BoundBuiltin))
+        return isinstance(args[0], (AFunc, AClass, BuiltinFn, BoundBuiltin, BuiltinType)) or (callable(args[0]) and not isinstance(args[0], AbsVal))
+    if name == "vars" and len(args) == 1 and isinstance(args[0], AObj):
+        return it.get_attr(args[0], "__dict__")
+    if name in ("chr", "divmod", "pow", "round", "bin", "hex", "oct", "format", "ascii") and args and all(isinstance(a, (int, float, str)) for a in args) and not kwargs:
+        import builtins
+        try:
+            res = getattr(builtins, name)(*args)
+        except (ValueError, TypeError, ZeroDivisionError, OverflowError) as exc:
+            it.raise_builtin(type(exc).__name__, str(exc), node=node)
+        return res
     if name == "id":
         return id(args[0])
     if name == "ord" and isinstance(args[0], str):
@@ -1866,6 +2509,7 @@ def sort_abs(it: Interp, items: list, kwargs, node=None) -> AList:
         if r is not NotImplemented:
             return r
     keys = [it.call_value(key, [x], {}) if key is not None else x for x in items]
+    keys = [k.value if isinstance(k, EnumMember) and k.mixin else k for k in keys]
     if all(_is_concrete(k) for k in keys):
         try:
             order = sorted(range(len(items)), key=lambda i: keys[i], reverse=bool(rev))
@@ -1944,10 +2588,22 @@ def call_builtin_type(it: Interp, name, args, kwargs, node=None):
         if isinstance(v, (str, int, float, bool, type(None))):
             return str(v)
         if isinstance(v, ExcVal):
-            if len(v.args) == 1 and isinstance(v.args[0], str):
+            if len(v.args) == 1 and isinstance(v.args[0], str) and v.name != "KeyError":
                 return v.args[0]
             if not v.args:
                 return ""
+        if isinstance(v, AObj) and v.cls.find_method("__str__") is None and isinstance(v.attrs.get("args"), tuple) \
+                and any(builtin_exc_isa(x.split(".")[-1], "BaseException") for x in v.cls.all_ext_bases()) \
+                and not any(builtin_exc_isa(x.split(".")[-1], "KeyError") for x in v.cls.all_ext_bases()):
+            a_ = v.attrs["args"]
+            if len(a_) == 1 and isinstance(a_[0], str):
+                return a_[0]
+            if not a_:
+                return ""
+        if isinstance(v, AObj):
+            m = v.cls.find_method("__str__") or v.cls.find_method("__repr__")
+            if m is not None:
+                return it.call_function(AFunc(m, m.node, m.module, self_val=v, cls=m.cls), [], {})
         if isinstance(v, AbsVal) and not isinstance(v, Unknown):
             r = v.call_method(it, "__str__", [], {})
             if r is not NotImplemented:
@@ -1955,7 +2611,7 @@ def call_builtin_type(it: Interp, name, args, kwargs, node=None):
         return Unknown(f"str({v!r})", "str")
     if name == "int":
         v = args[0] if args else 0
-        if isinstance(v, bool) or isinstance(v, int):
+        if isinstance(v, bool) or isinstance(v, (int, float)):
             return int(v)
         if isinstance(v, str):
             if len(v.strip()) > 4300 and len(args) < 2:
@@ -1975,6 +2631,16 @@ def call_builtin_type(it: Interp, name, args, kwargs, node=None):
         return Unknown(f"int({v!r})", "int")
     if name == "bool":
         return it.truth(args[0]) if args else False
+    if name == "float":
+        v = args[0] if args else 0.0
+        if isinstance(v, (int, float, str)):
+            try:
+                return float(v)
+            except ValueError as exc:
+                it.raise_builtin("ValueError", str(exc), node=node)
+        if v is None or isinstance(v, (AList, ADict, ASet)):
+            it.raise_builtin("TypeError", "float() argument", node=node)
+        return Unknown(f"float({v!r})", "float")
     if name == "type":
         if len(args) == 1:
             return type_of(it, args[0])
@@ -2009,6 +2675,20 @@ def call_builtin_method(it: Interp, recv, name, args, kwargs, node=None):
             recv.self_val.attrs["args"] = tuple(args)
             return None
         raise Unsupported(f"super().{name} resolves outside the package")
+    if isinstance(recv, AObj) and getattr(recv, "tag", "") == "namedtuple":
+        fields = it.record_fields(recv.cls)
+        if name == "_replace":
+            new = AObj(recv.cls, "namedtuple")
+            new.attrs.update(recv.attrs)
+            for k, v in kwargs.items():
+                if k not in fields:
+                    it.raise_builtin("ValueError", f"Got unexpected field names: {k}", node=node)
+                new.attrs[k] = v
+            return new
+        if name == "_asdict":
+            return ADict({f: recv.attrs[f] for f in fields})
+        if name in ("index", "count"):
+            return call_builtin_method(it, tuple(recv.attrs[f] for f in fields), name, args, kwargs, node)
     if isinstance(recv, AObj):
         # instance of a package class deriving from a builtin (exceptions)
         if name == "with_traceback":
@@ -2059,6 +2739,27 @@ def call_builtin_method(it: Interp, recv, name, args, kwargs, node=None):
         it.raise_builtin("AttributeError", f"'tuple' object has no attribute '{name}'", node=node)
     if isinstance(recv, AList):
         L = recv.items
+        if name == "appendleft":
+            L.insert(0, args[0])
+            it.effect("insert", recv, 0, args[0])
+            return None
+        if name == "popleft":
+            if not L:
+                it.raise_builtin("IndexError", "pop from an empty deque", node=node)
+            it.effect("pop", recv, 0)
+            return L.pop(0)
+        if name == "extendleft":
+            for x in it.iterate(args[0]):
+                L.insert(0, x)
+            it.effect("extend", recv)
+            return None
+        if name == "rotate" and (not args or isinstance(args[0], int)):
+            n = args[0] if args else 1
+            if L:
+                n %= len(L)
+                L[:] = L[-n:] + L[:-n]
+            it.effect("reorder", recv)
+            return None
         if name == "append":
             L.append(args[0])
             it.effect("append", recv, args[0])
@@ -2159,8 +2860,12 @@ def call_builtin_method(it: Interp, recv, name, args, kwargs, node=None):
                 src = args[0]
                 if isinstance(src, ADict):
                     D.update(src.items)
+                elif isinstance(src, Unknown):
+                    raise Unsupported("dict.update from an unknown value")
                 else:
-                    raise Unsupported("dict.update from non-dict")
+                    for pair in it.iterate(src):
+                        k, v = it.unpack(pair, 2)
+                        D[it.hashable(k)] = v
             D.update(kwargs)
             it.effect("dict-update", recv)
             return None
@@ -2174,6 +2879,35 @@ def call_builtin_method(it: Interp, recv, name, args, kwargs, node=None):
             D.clear()
             it.effect("clear", recv)
             return None
+        if name == "move_to_end":
+            k = find(args[0])
+            if k is _MISSING:
+                it.raise_builtin("KeyError", args[0], node=node)
+            v = D.pop(k)
+            last = args[1] if len(args) > 1 else kwargs.get("last", True)
+            if it.truth(last):
+                D[k] = v
+            else:
+                rest = list(D.items())
+                D.clear()
+                D[k] = v
+                D.update(rest)
+            it.effect("dict-update", recv)
+            return None
+        if name == "popitem":
+            if not D:
+                it.raise_builtin("KeyError", "popitem(): dictionary is empty", node=node)
+            last = args[0] if args else kwargs.get("last", True)
+            k = list(D)[-1 if it.truth(last) else 0]
+            v = D.pop(k)
+            it.effect("dict-pop", recv, k, v)
+            return (k, v)
+        if name == "most_common" and getattr(recv, "counter", False) and all(isinstance(v, int) for v in D.values()):
+            ranked = sorted(D.items(), key=lambda kv: -kv[1])
+            n = args[0] if args else None
+            return AList(ranked[:n] if n is not None else ranked)
+        if name == "__contains__":
+            return find(args[0]) is not _MISSING
         it.raise_builtin("AttributeError", f"'dict' object has no attribute '{name}'", node=node)
     if isinstance(recv, ASet):
         S = recv.items
@@ -2186,7 +2920,23 @@ def call_builtin_method(it: Interp, recv, name, args, kwargs, node=None):
             other = it.iterate(args[0])
             return ASet([x for x in S if any(it.equal(x, y) for y in other)])
         if name == "union":
-            return ASet(S + it.iterate(args[0]))
+            return ASet(S + [y for a in args for y in it.iterate(a) if not any(it.equal(x, y) for x in S)])
+        if name == "isdisjoint":
+            other = it.iterate(args[0])
+            return not any(it.equal(x, y) for x in S for y in other)
+        if name == "issuperset":
+            return all(any(it.equal(x, y) for x in S) for y in it.iterate(args[0]))
+        if name == "symmetric_difference":
+            other = it.iterate(args[0])
+            return ASet([x for x in S if not any(it.equal(x, y) for y in other)] + [y for y in other if not any(it.equal(x, y) for x in S)])
+        if name in ("intersection_update", "difference_update"):
+            other = [y for a in args for y in it.iterate(a)]
+            keep = (lambda x: any(it.equal(x, y) for y in other)) if name == "intersection_update" else (lambda x: not any(it.equal(x, y) for y in other))
+            S[:] = [x for x in S if keep(x)]
+            it.effect("set-update", recv)
+            return None
+        if name == "__contains__":
+            return any(it.equal(x, args[0]) for x in S)
         if name == "discard" or name == "remove":
             for i, x in enumerate(S):
                 if it.equal(x, args[0]):
@@ -2243,6 +2993,7 @@ def new_interp(program: Program, ctx: Ctx, intrinsics=None, hooks=None) -> Inter
     it = Interp(program, ctx, intrinsics, hooks)
     it._globals = {}
     it._submemo = {}
+    it._clsattrs = {}
     return it
 
 
